@@ -23,7 +23,8 @@ def regen(ctx):
         "BackgroundWorker", "runBackgroundWorker", "Start", "Run", "shutdown",
         "stopWorkers", "getWorkersAndShutdownOrder", "cleanupWorker", "clear", "Shutdown", "ShutdownAndWait",
         "GetRunningBackgroundWorkers", "IsStopped", "IsRunning", "ContextStopped")]
-        + ["app/daemon/daemon.go:type=OrderedDaemon", "app/daemon/daemon.go:type=worker"],
+        + ["app/daemon/daemon.go:type=OrderedDaemon", "app/daemon/daemon.go:type=worker",
+           "app/daemon/interfaces.go:type=Daemon", "app/daemon/interfaces.go:type=WorkerFunc"],
         extra_methods=["IsStopped", "IsRunning", "ctxCancel", "stoppedCtxCancel", "Slice", "backgroundWorker"])
 
 
@@ -47,7 +48,8 @@ SPEC = {
                  "C20_ext_refines", "C20_ext_statement", "C20_stopped_ctx_after_flag", "C20_stopped_ctx_before_cancel",
                  "C20_stopped_ctx_before_return", "C20_stopped_monotone", "C20_stopped_observations",
                  "C20_wrappers_forward_all_arguments", "C20_driver_step_sound", "C20_shutdown_terminates",
-                 "C20_handler_shutdownandwait_selfwait_witness"] + ["C20_decisions_" + m for m in (
+                 "C20_handler_shutdownandwait_selfwait_witness", "C20_no_waitgroup_add_after_stop",
+                 "C20_skeleton_type_Daemon", "C20_skeleton_type_WorkerFunc"] + ["C20_decisions_" + m for m in (
                      "GetRunningBackgroundWorkers", "getWorkersAndShutdownOrder", "runBackgroundWorker", "BackgroundWorker", "DebugLogger", "Start", "Run", "shutdown", "stopWorkers", "cleanupWorker", "removeWorkerFromShutdownOrder", "clear", "Shutdown", "ShutdownAndWait", "IsRunning", "IsStopped", "ContextStopped")],
     "trusted_base": [
         "hand-written protocol model Hive/Model/Daemon.lean of app/daemon/daemon.go (critical sections of d.lock atomic; "
